@@ -28,7 +28,7 @@ def pair_ops(tname):
     d0 = [sc.fbits(tv, float(i + 1)) for i in range(6 * m)]
     d1 = [sc.fbits(tv, float(10 * (i + 1))) for i in range(3 * m)]
     w = [sc.fbits(tv, 99.5)] * m
-    return [('C', 0, sz0, d0), ('C', 2, sz1, d1), ('W', 0, 5, w), ('W', 2, 2, w), ('W', 3, 4, w), ('W', 1, 1, w), ('V', 2, 0), ('V', 3, 0), ('V', 0, 2), ('V', 1, 2), ('V', 1, 3),
+    return [('C', 0, sz0, d0), ('C', 2, sz1, d1), ('W', 0, 5, w), ('W', 2, 2, w), ('W', 3, 4, w), ('W', 1, 1, w), ('V', 2, 0), ('V', 3, 0), ('V', 0, 2), ('V', 1, 2), ('V', 1, 3), ('U', 0, 2), ('U', 2, 0),
             ('K', 1, 0), ('K', 3, 2), ('A', 0, 1), ('A', 2, 3), ('A', 3, 2), ('L', 3, 2), ('L', 1, 0), ('M', 3, 2), ('B', 2, 3), ('D', 0), ('D', 2)]
 
 
@@ -50,7 +50,7 @@ class Mirror:
             return s[op[1]] is None
         if k == 'W':
             return s[op[1]] is not None and s[op[1]][0] == 'F' and op[2] < len(coords_of(self.name, s[op[1]][1]))
-        if k == 'V':   # layout conversion: construct a field of the OTHER type from a field
+        if k in ('V', 'U'):   # layout conversion: construct a field of the OTHER type from a field (U: from an rvalue)
             return self.pool(op[1]) != self.pool(op[2]) and s[op[1]] is None and s[op[2]] is not None and s[op[2]][0] == 'F'
         if k in ('K', 'M', 'L', 'A', 'B') and self.pool(op[1]) != self.pool(op[2]):
             return False
@@ -73,7 +73,8 @@ class Mirror:
             m = len(op[3])
             d[op[2] * m:(op[2] + 1) * m] = op[3]
             s[op[1]] = ('F', t[1], d)
-        elif k in ('K', 'L', 'V'):
+        elif k in ('K', 'L', 'V', 'U'):
+            # U: the converting constructors take their source by const reference, so even an rvalue source keeps its value
             s[op[1]] = s[op[2]]
         elif k == 'M':
             s[op[1]] = s[op[2]]
@@ -136,10 +137,10 @@ def render(tname, nslots, ops):
                 mops.append(f'W {s_} {cell * m + j} {v}')
             c = coords_of(name, mir.s[s_][1])[cell]
             hops.append(on(s_) + f'wr {loc(s_)} ' + ' '.join(map(str, c)) + ' ' + ' '.join(map(str, vals)))
-        elif k == 'V':
+        elif k in ('V', 'U'):
             # construct the field in slot op[1] (other storage order) from the field in slot op[2]; value semantics: a copy
             mops.append(f'K {op[1]} {op[2]}')
-            hops.append(f'on {tys[op[2] // per]} conv {tys[op[1] // per]} {loc(op[1])} {loc(op[2])}')
+            hops.append(f'on {tys[op[2] // per]} conv {tys[op[1] // per]} {loc(op[1])} {loc(op[2])}' + (' move' if k == 'U' else ''))
         else:
             code = {'K': 'copy', 'M': 'move', 'A': 'cassign', 'B': 'massign', 'D': 'del', 'L': 'reload'}[k]
             mops.append(' '.join(['K' if k == 'L' else k] + [str(x) for x in op[1:]]))
@@ -189,7 +190,7 @@ def random_history(tname, r, nslots, length):
     tries = 0
     while len(ops) < length and tries < length * 40:
         tries += 1
-        k = r.choice(['C', 'W', 'W', 'K', 'L', 'M', 'A', 'A', 'B', 'D'] + (['V'] * 4 if len(tys) > 1 else []))
+        k = r.choice(['C', 'W', 'W', 'K', 'L', 'M', 'A', 'A', 'B', 'D'] + (['V'] * 3 + ['U'] * 2 if len(tys) > 1 else []))
         a, b = r.below(nslots), r.below(nslots)
         if k == 'C':
             sizes = [r.range(1, 4)] if (name.startswith('array') or n == 1) else [r.range(1, 3 if len(tys) == 1 else 6) for _ in range(n)]
@@ -216,7 +217,7 @@ def run(replay=None):
     chk.cov['rule'] = (
         'operation histories over a pool of field slots of one type (array / row-major / Morton / Hilbert / clamp-over-row-major storage, 1..3 output components, float and double): construction from data, '
         'writes through a view, copy and move construction, construction from a dump of another field, copy and move assignment INCLUDING self-assignment, destruction; and histories over TWO pools of different storage order '
-        '(row-major and Morton, non-cubic extents) with LAYOUT CONVERSION between them (every in-contract history of length <= 3 that starts with a construction and contains a conversion, plus seeded random ones over 4+4 slots). EXHAUSTIVE: every in-contract history of length <= 3 over 2 slots '
+        '(row-major and Morton, non-cubic extents) with LAYOUT CONVERSION between them (from an lvalue and from an rvalue source) (every in-contract history of length <= 3 that starts with a construction and contains a conversion, plus seeded random ones over 4+4 slots). EXHAUSTIVE: every in-contract history of length <= 3 over 2 slots '
         '(20 parametrised operations, a dump-and-reload construction among them; length <= 4 for the plain array type in the thorough tier) for each field type; seeded random histories of length 40 over 4 slots (longer in the thorough tier). After EVERY operation every live, non-moved-from field is read back at '
         'EVERY coordinate through a fresh view and compared with the run of the Coq ownership model (concrete level, which the theorem C12_history_refines proves equal to plain value semantics); the process runs under '
         'ASan + LeakSanitizer + UBSan in an assertion build and in -O2 -DNDEBUG, so a double free, use after free, leak or value-returning function that returns nothing is a failure. '
@@ -261,7 +262,7 @@ def run(replay=None):
         alpha = pair_ops(t)
         for ln in range(1, 5 if thorough else 4):
             for seq in itertools.product(alpha, repeat=ln):
-                if seq[0][0] == 'C' and valid(t, 4, seq, 2) and (ln < 3 or any(o[0] == 'V' for o in seq)):
+                if seq[0][0] == 'C' and valid(t, 4, seq, 2) and (ln < 3 or any(o[0] in 'VU' for o in seq)):
                     hist.append((t, 4, list(seq)))
         for _ in range(12 if thorough else 4):
             hist.append((t, 8, random_history(t, r, 8, 120 if thorough else 40)))
@@ -306,7 +307,7 @@ def run(replay=None):
         id_ = str(i)
         t0 = t.split('+')[0]
         n, m, tv = shape_info(t0)
-        chk.count_case((t, json.dumps(ops)), any(o[0] in 'KMABLV' for o in ops))
+        chk.count_case((t, json.dumps(ops)), any(o[0] in 'KMABLVU' for o in ops))
         mo = model.get(id_)
         # model groups: one per model op; writes of M components produce M groups -> keep the last of each
         mg = mo.split(' | ') if mo else None
